@@ -83,6 +83,8 @@ type FuncContract struct {
 	Deterministic bool      // (extern functions) results are functions of the argument values only
 	MustUse       [][2]string // (result name, reason): results a caller must not discard
 	NoCalls       []*Clause   // Expr = callee name (suffix match): calls this function must not make
+	Blocks        string      // non-empty: the function waits for a peer (reason)
+	StoresOnly    bool        // the modifies clause constrains the function's own stores only
 	Dead          bool      // target does not exist (reported as unresolved)
 	Stable        bool      // (interface / extern methods) the single result is a function of the receiver identity only
 }
@@ -131,7 +133,7 @@ type ContractFile struct {
 var clauseKeywords = map[string]bool{
 	"property": true, "requires": true, "ensures": true, "modifies": true, "pure": true,
 	"safe": true, "loop": true, "assume": true, "trusted": true, "alloc_bound": true,
-	"holds": true, "spawned": true, "terminates": true, "alias": true, "callsite": true, "stable": true, "freevars": true, "deterministic": true, "implements": true, "mustuse": true, "nocall": true,
+	"holds": true, "spawned": true, "terminates": true, "alias": true, "callsite": true, "stable": true, "freevars": true, "deterministic": true, "implements": true, "mustuse": true, "nocall": true, "blocks": true, "ownstores": true,
 }
 
 var labelRe = regexp.MustCompile(`\s:([A-Za-z_][A-Za-z0-9_]*)\s*$`)
@@ -382,6 +384,17 @@ func ParseContractFile(path string) (*ContractFile, error) {
 			// nocall <callee> :label  -- this function (its closures included) never calls the named function
 			e0, lab := splitLabel(rest)
 			cur.NoCalls = append(cur.NoCalls, &Clause{Kind: "nocall", Expr: strings.TrimSpace(e0), Label: lab, Property: curProp, Line: ln})
+		case "ownstores":
+			// the modifies clause of this function is a frame for ITS OWN stores only: calls are not checked against it
+			// and callers do not rely on it (for functions whose callees are not all under contract)
+			cur.StoresOnly = true
+		case "blocks":
+			// blocks "why": the call waits for a peer (network read / write / handshake); callers must not hold a
+			// package-level lock across it
+			cur.Blocks = strings.Trim(strings.TrimSpace(rest), `"`)
+			if cur.Blocks == "" {
+				cur.Blocks = "waits for the peer"
+			}
 		case "mustuse":
 			// mustuse <result name> "reason": a caller that discards this result breaks the callee's protocol
 			nm, reason := rest, ""
